@@ -172,6 +172,46 @@ CHECKS = {
          'over 4 bytes x counts 0..3; variables and the whole image otherwise unchanged.',
          'On an error exit the destination is unspecified. Three documentation/behaviour mismatches are recorded as known findings (F17-F19).',
          'DESIGN.md section 3 C09'),
+ 'C11': ('exploration',
+         'exhaustive enumeration of _fjcore.Memory API call sequences over an adversarial alphabet on an ASan+UBSan build of the working-tree C source, plus sanitizer runs of the engine drivers',
+         'All call sequences of depth <= 2 over a 124-operation alphabet (add_segment at page / window / 2^40 / 2^58 / 2^63 / 2^64 edges '
+         'with zero, huge, exactly-to-2^64 and overflowing lengths; set_words inside / straddling / wrapping / with bad items; '
+         'get_word / set_word at the same addresses; run with ring lengths 0/1/3/-1/2^62, start_ip 0/1/w/2^64-1 and device callbacks '
+         'that poke the memory, add segments, re-init the object or run recursively; __init__ on a live object; 5000 descending '
+         'segments) for 7 constructor configurations (32 thorough), depth 3 as (program load, run, anything) (depth 4 thorough), plus '
+         'slices of the C01 / C07 / C19 drivers and .fjm files with adversarial segment tables - all on a clang '
+         '-fsanitize=address,undefined build loaded with LD_PRELOAD: no sanitizer report, normal worker exit.',
+         'As strong as the sanitizers on the explored sequences; reference-count leaks are not detected. Most workers use a 2^16-word flat window (FLIPJUMP_FLAT_MAX_WORDS) to keep the 64 MB default-window fill out of the per-run cost; one worker keeps the real default.',
+         'DESIGN.md section 3 C11'),
+ 'C13': ('model_checking',
+         'explicit-state search over assemble-call histories in one process (forked children of a never-assembled parent); probe bytes vs a fresh interpreter process',
+         'Every history of depth <= 2 (3 thorough) over 14 assemble actions (stl programs at two widths, no-stl, werror, a parse failure '
+         'inside nested namespaces, a lexing error, an unknown macro after the cache was filled, recursion overflow with depth 5, depth '
+         '2000, a rep-heavy program, the stl under other short names, another user short name, another directory) followed by four '
+         'probe assemblies (different widths, versions, werror): the .fjm and .fjd bytes of every probe must equal those of a brand-new '
+         'interpreter process (two reference processes with different hash seeds and directories must agree as well).',
+         'Each history runs in a forked child of a parent that imported flipjump but never assembled. The process-global state key is reported, not used to merge histories.',
+         'DESIGN.md section 3 C13'),
+ 'C15': ('model_checking',
+         'exhaustive debugger sessions (all command scripts of bounded length x breakpoint subsets x programs) vs a debugger model over the reference machine trace',
+         'About 4 million sessions: every script of <= 3 (4 thorough) commands over a 28-command alphabet (step, skip N incl. 0 / negative / '
+         'garbage, continue, the three continue-all spellings incl. mixed case, reads of words / unaligned / unmapped addresses / hex, bit '
+         'and byte variables over a data segment with distinctive bits, help, unknown commands, empty lines, quit; running out = EOF) x '
+         'every breakpoint subset of size <= 2 of the visited addresses + a never-visited one x 12 programs per width, through '
+         'fjm_run.run(breakpoint_handler=...): pause list (address, ops executed), values shown by reads, quit => keyboard-interrupt at '
+         'the pause op count, otherwise output / IO calls / cause / op count / final memory equal the undebugged reference run.',
+         'Messages are parsed only for addresses, op counts and values. Label / substring breakpoints are resolved in C16.',
+         'DESIGN.md section 3 C15'),
+ 'C20': ('exploration',
+         'full product of CLI option domains x three invocation routes; byte equality of the produced files, equality of output and termination, documented defaults',
+         '193 option configurations (3 programs x -w x -v {absent,0,1,2,3} x -d {absent, path, bare} x --lzma_preset {absent,0,9} x -s; '
+         'thorough adds w=16, --werror and all combinations) through `fj files -o`, `fj --asm -o` + `fj --run` (subprocesses of '
+         'python -m flipjump.flipjump_cli on the working tree) and the Python API with the same explicit options: the three .fjm '
+         '(and .fjd) files must be byte-identical, header width/version as requested or defaulted, program output and termination '
+         'identical; defaults observed directly: temporary file of the one-step flow is width 64 / version 1, with -o version 3, stl '
+         'included unless --no_stl.',
+         'The one-step temporary file is observed by wrapping flipjump_cli.TemporaryDirectory in-process.',
+         'DESIGN.md section 3 C20'),
 }
 
 NOT_YET = {
